@@ -32,6 +32,26 @@ CHECKS = {
         note="Target/update contents chosen per seed; coordinates in range; for set_at any competing value is accepted at a multiply addressed element. " + LIMITS,
         technique="bounded exhaustive enumeration of descriptions and coordinate tensors, differential against an explicit loop",
         design="4/C14"),
+    "C06": dict(
+        level="model_checking",
+        text="History exploration: ALL call sequences up to the length bound over an alphabet of ~70 calls built to collide under Python hashing/equality (2 / 2.0 / True, "
+             "list / tuple / array, array / scalar / factory / temporary factories of different signature) and to fail at every stage, each executed on a pristine einx "
+             "(package removed from sys.modules and re-imported). After every history the outcome of the last call must equal its outcome as the only call, which must "
+             "equal its outcome in a really fresh interpreter; tracer dependency stack and with-stack must be empty.",
+        note="Length <= 2 over the full alphabet (quick), + length 3 over a 20-call sub-alphabet and EINX_CACHE_SIZE in {unset,0,1} (thorough). Third-party state is not reset by re-import; "
+             "covered by the fresh-interpreter references. " + LIMITS,
+        technique="exhaustive enumeration of bounded call histories on a re-imported implementation, differential against the single-call / fresh-interpreter outcome",
+        design="4/C06"),
+    "C10": dict(
+        level="model_checking",
+        text="Stateless schedule exploration of real threads under a cooperative scheduler (hand-rolled, CHESS style): for 14 small thread programs (with-blocks, calls, "
+             "first-time compilation, get_by_name, register, first-use lookup of a lazily registered framework; 2-3 threads) every schedule with at most k pre-emptions "
+             "(k iterated per program, scheduling point before every source line of einx's registry/api/cache/tracing files and at every lock acquire) is executed on the "
+             "real code and its observation must be produced by some serial interleaving of the same operations (brute-force linearizability).",
+        note="CPython with GIL; pre-emption granularity = source line in the traced files; k<=2 for the short registry programs, k<=1 for programs with >600 scheduling points; "
+             "no free-running race detector exists for Python to complement this. " + LIMITS,
+        technique="pre-emption-bounded exhaustive schedule exploration (stateless model checking) of the implementation with a linearizability oracle",
+        design="4/C10"),
     "C11": dict(
         level="model_checking",
         text="Explicit-state breadth-first search over event histories (register, register_on_import with healthy/failing factories, module import, every lookup form, "
